@@ -457,6 +457,18 @@ class Canon:
         for name in mutated:
             if name in simple:
                 simple[name] = False
+        # a local bound to the result of a call with side effects (or of unknown purity) is not inlined:
+        # inlining would duplicate or reorder the effect (``fresh = self.newaux()`` used twice)
+        if self.model is not None:
+            for n in ast.walk(self.fi.node):
+                if isinstance(n, (ast.Assign, ast.AnnAssign)) and getattr(n, "value", None) is not None:
+                    calls = [c for c in ast.walk(n.value) if isinstance(c, ast.Call)]
+                    if calls and not all(self.model.call_is_pure(self.fi, c) for c in calls):
+                        tgts = n.targets if isinstance(n, ast.Assign) else [n.target]
+                        for tg in tgts:
+                            for nn in ast.walk(tg):
+                                if isinstance(nn, ast.Name) and isinstance(nn.ctx, ast.Store) and nn.id in simple:
+                                    simple[nn.id] = False
         # a local bound to a freshly constructed object (other than the small value records) keeps its identity
         for n in ast.walk(self.fi.node):
             if isinstance(n, (ast.Assign, ast.AnnAssign)) and isinstance(getattr(n, "value", None), ast.Call):
@@ -1205,3 +1217,40 @@ def diff_paths(a: S, b: S, path: str = "") -> list[str]:
         out.append(f"{show(x)}  <>  {show(y)}")
     rec(a, b, path)
     return out
+
+
+def single_defs(block: tuple) -> dict:
+    """numbered locals ('v', k) that are assigned exactly once in the whole block (and never augmented, swapped or
+    used as a loop target) -> their right-hand side.  Lets a rule look through a local regardless of whether the
+    canonicaliser chose to inline it."""
+    count: dict = {}
+    rhs: dict = {}
+    banned: set = set()
+
+    def rec(x):
+        if isinstance(x, tuple) and x:
+            if x[0] == "set" and len(x) == 3 and isinstance(x[1], tuple) and x[1] and x[1][0] == "v":
+                count[x[1]] = count.get(x[1], 0) + 1
+                rhs[x[1]] = x[2]
+            elif x[0] == "aug" and len(x) == 4:
+                banned.add(x[2])
+            elif x[0] == "mset":
+                for t in x[1]:
+                    banned.add(t)
+            elif x[0] == "for" and len(x) == 5:
+                for t in ([x[1]] if x[1][0] != "tuple" else list(x[1][1])):
+                    banned.add(t)
+            for y in x:
+                rec(y)
+    rec(block)
+    return {v: e for v, e in rhs.items() if count[v] == 1 and v not in banned}
+
+
+def deref(s: S, defs: dict, depth: int = 4) -> S:
+    """substitute single-definition locals by their definitions (a few levels deep)"""
+    for _ in range(depth):
+        s2 = Sigma(raw_subst=defs).apply(s)
+        if s2 == s:
+            break
+        s = s2
+    return s
